@@ -655,3 +655,25 @@ def is_count_range(iter_node, count_text, containers=()):
         return bool(parts) and all(x in containers for x in parts)
     return False
 
+
+def norm_comp(node):
+    """normal text with the variables of comprehensions renamed by position (v0, v1, ...): two comprehensions that
+    differ only in the name of their loop variable give the same text"""
+    import copy as _copy
+    t = _copy.deepcopy(node)
+    counter = [0]
+
+    def rename(comp):
+        mapping = {}
+        for g in comp.generators:
+            for x in ast.walk(g.target):
+                if isinstance(x, ast.Name) and x.id not in mapping:
+                    mapping[x.id] = f"v{counter[0]}"
+                    counter[0] += 1
+        for x in ast.walk(comp):
+            if isinstance(x, ast.Name) and x.id in mapping:
+                x.id = mapping[x.id]
+    for c in [x for x in ast.walk(t) if isinstance(x, (ast.ListComp, ast.SetComp, ast.GeneratorExp, ast.DictComp))]:
+        rename(c)
+    return norm(t)
+
